@@ -28,6 +28,8 @@ fn main() {
     "replay-dec" => codec::replay_dec(&args[2]),
     "search-eqhash" => eqhash::search(&args[2..]),
     "replay-eqhash" => eqhash::replay(&args[2]),
+    "search-ropedegenerate" => wildmap::search_rope_degenerate(&args[2..]),
+    "replay-ropedegenerate" => wildmap::replay_rope_degenerate(&args[2]),
     "search-ropebounds" => wildmap::search_rope_bounds(&args[2..]),
     "replay-ropebounds" => wildmap::replay_rope_bounds(&args[2]),
     "search-tokens" => wildmap::search_tokens(&args[2..]),
